@@ -7,6 +7,8 @@ import (
 	"log/slog"
 	"os"
 	"path/filepath"
+	"strings"
+	"sync"
 	"sync/atomic"
 	"syscall"
 	"time"
@@ -72,6 +74,104 @@ type c08RunVerdictParams struct {
 	CancelInSetup bool `json:"cancel_in_setup,omitempty"`
 	// SetupMark: the first body reports a non-fatal error through the handle captured in setup (fails nothing)
 	SetupMark bool `json:"setup_mark,omitempty"`
+}
+
+type c08DropVerdictParams struct {
+	Mode   string `json:"mode"`
+	Ending string `json:"ending"` // cancel (from outside) | duration | cancel-in-body
+	Req    int    `json:"req"`    // requests of the first (and only) tick before the run is stopped
+	Conc   int    `json:"conc"`
+	Ignore bool   `json:"ignore"`
+	MaxF   int    `json:"max_f"`
+	MaxR   int    `json:"max_r"`
+}
+
+// c08DropVerdict: the first tick asks for more iterations than there are workers, the workers stay busy, and the run is
+// stopped (interrupted from outside, from inside an iteration, or by its max-duration) before the next tick. Every request
+// that was never executed is work the run dropped: it passes only with ignore-dropped (no iteration fails here).
+func c08DropVerdict(c *core.Case, o *core.Outcome) {
+	var p c08DropVerdictParams
+	c.Params(&p)
+	l := engine.NewLog()
+	ctx, cancel := context.WithCancel(context.Background())
+	defer cancel()
+	gate := make(chan struct{})
+	var started atomic.Int64
+	inBody := make(chan struct{}, 64)
+	scenario := func(*f1testing.T) f1testing.RunFn {
+		return func(t *f1testing.T) {
+			n := started.Add(1)
+			inBody <- struct{}{}
+			if p.Ending == "cancel-in-body" && n == int64(p.Conc) {
+				cancel()
+			}
+			<-gate
+		}
+	}
+	// one tick at the start, the next one a minute later
+	spec := engine.RateSpec(p.Mode, p.Req+p.Conc, 60000, p.Conc)
+	spec.CompletionMS = 3000
+	spec.MaxFailures, spec.MaxFailuresRate, spec.IgnoreDropped = uint64(p.MaxF), p.MaxR, p.Ignore
+	spec.MaxDurationMS = 60000
+	if p.Ending == "duration" {
+		spec.MaxDurationMS = 400
+	}
+	var evals atomic.Int64
+	hooks := &engine.Hooks{OnRate: func(k int, _ time.Time, v int) int { evals.Add(1); return v }}
+	done := make(chan *engine.Run, 1)
+	go func() { done <- engine.Execute(ctx, spec, l, scenario, hooks, nil) }()
+	// all workers busy
+	for i := 0; i < p.Conc; i++ {
+		select {
+		case <-inBody:
+		case <-time.After(20 * time.Second):
+			close(gate)
+			<-done
+			o.Inconc("the %d workers did not all start an iteration within 20 s", p.Conc)
+			return
+		}
+	}
+	switch p.Ending {
+	case "cancel":
+		time.Sleep(30 * time.Millisecond)
+		cancel()
+		time.Sleep(150 * time.Millisecond)
+	case "cancel-in-body":
+		time.Sleep(150 * time.Millisecond)
+	case "duration":
+		time.Sleep(550 * time.Millisecond)
+	}
+	close(gate)
+	r := <-done
+	if r.NewErr != nil {
+		o.Inconc("harness: %v", r.NewErr)
+		return
+	}
+	desc := fmt.Sprintf("%+v", p)
+	if evals.Load() != 1 {
+		o.Inconc("%d rate evaluations instead of the one planned (%s)", evals.Load(), desc)
+		return
+	}
+	su, fa, dr := resultCounts(r)
+	requested := uint64(p.Req + p.Conc)
+	o.Events = started.Load() + int64(l.Len())
+	o.AddObs("evaluations", 1)
+	if su+fa > requested || fa != 0 {
+		o.Violate("dropverdict-counts:"+desc, "one tick asked for %d iterations; the result reports %d successful, %d failed (%s)", requested, su, fa, desc)
+		return
+	}
+	never := requested - uint64(started.Load())
+	want := !p.Ignore && never > 0
+	if r.Result.Failed() != want {
+		o.Violate("dropverdict:"+desc, "one tick asked for %d iterations, %d were executed (all passed), %d never were because the run was stopped (%s) while they queued; ignore-dropped=%v: the run must %s, Failed()=%v (result: %d successful, %d failed, %d dropped; error %v) (%s)",
+			requested, started.Load(), never, p.Ending, p.Ignore, map[bool]string{true: "fail", false: "pass"}[want], r.Result.Failed(), su, fa, dr, r.Result.Error(), desc)
+		return
+	}
+	if never > 0 {
+		o.AddObs("decided_by_tolerance", 1)
+		o.Sig("dropverdict:mode=%s:end=%s:ignore=%v:conc=%d", p.Mode, p.Ending, p.Ignore, p.Conc)
+	}
+	o.Sample = map[string]any{"case": desc, "result": []uint64{su, fa, dr}, "never_executed": never, "failed_verdict": r.Result.Failed()}
 }
 
 // c08RunVerdict: the verdict of a real run - also one that ends through the completion timeout with an
@@ -324,6 +424,14 @@ func init() {
 				c.TimeoutMS = 60000
 				cs = append(cs, c)
 			}
+			// an iteration that outlives the completion timeout (10 s on the command line) and fails while the scenario is
+			// being torn down: whatever the run makes of it, the exit status says what the run's own summary says
+			for i := 0; i < map[string]int{"quick": 1, "thorough": 3}[tier]; i++ {
+				c := core.MkCase("C08", "cli", 945+i, seed, c08CLIParams{Mode: "lateoutcome", Conc: 1 + i, Quiet: false})
+				c.Solo = true
+				c.TimeoutMS = 120000
+				cs = append(cs, c)
+			}
 			// consecutive command lines on one f1 instance
 			for i := 0; i < 3; i++ {
 				c := core.MkCase("C08", "cli", 970+i, seed, c08CLIParams{Mode: "tworuns", Conc: i})
@@ -381,9 +489,22 @@ func init() {
 				c.TimeoutMS = 60000
 				cs = append(cs, c)
 			}
+			// requests that were never executed because the run was stopped while they queued behind busy workers
+			ndv := 6
+			if tier == "thorough" {
+				ndv = 48
+			}
+			for k := 0; k < ndv; k++ {
+				c := core.MkCase("C08", "dropverdict", k, seed, c08DropVerdictParams{Mode: pick(r, "constant", "custom", "staged"), Ending: []string{"cancel", "duration", "cancel-in-body"}[k%3],
+					Req: 2 + r.IntN(6), Conc: pick(r, 1, 1, 2), Ignore: (k/3)%2 == 1, MaxF: pick(r, 0, 3), MaxR: pick(r, 0, 50)})
+				c.Race = k%2 == 0
+				c.TimeoutMS = 60000
+				cs = append(cs, c)
+			}
 			return cs
 		},
 		Kinds: map[string]core.RunFunc{
+			"dropverdict": c08DropVerdict,
 			"runverdict": c08RunVerdict,
 			"grid":       c08Grid,
 			"seeded":     c08Seeded,
@@ -550,6 +671,73 @@ func (quietHandler) Handle(context.Context, slog.Record) error { return nil }
 func (h quietHandler) WithAttrs([]slog.Attr) slog.Handler      { return h }
 func (h quietHandler) WithGroup(string) slog.Handler           { return h }
 
+// msgHandler keeps the messages of the records it is given.
+type msgHandler struct {
+	mu   *sync.Mutex
+	msgs *[]string
+}
+
+func (msgHandler) Enabled(context.Context, slog.Level) bool { return true }
+func (h msgHandler) Handle(_ context.Context, r slog.Record) error {
+	h.mu.Lock()
+	*h.msgs = append(*h.msgs, r.Level.String()+"|"+r.Message)
+	h.mu.Unlock()
+	return nil
+}
+func (h msgHandler) WithAttrs([]slog.Attr) slog.Handler { return h }
+func (h msgHandler) WithGroup(string) slog.Handler      { return h }
+
+// c08LateOutcome: every worker's first iteration outlives the run and its completion timeout and fails while the scenario
+// is torn down (a slow teardown). Whether or not such an outcome still counts, the command's error and the summary the
+// run itself reported state the same verdict.
+func c08LateOutcome(c *core.Case, o *core.Outcome, p c08CLIParams) {
+	release := make(chan struct{})
+	var started, failedLate atomic.Int64
+	scenario := func(t *f1testing.T) f1testing.RunFn {
+		t.Cleanup(func() {
+			close(release)
+			time.Sleep(900 * time.Millisecond)
+		})
+		return func(t *f1testing.T) {
+			started.Add(1)
+			<-release
+			t.Fail()
+			failedLate.Add(1)
+		}
+	}
+	var mu sync.Mutex
+	var msgs []string
+	inst := f1.New().WithLogger(slog.New(msgHandler{mu: &mu, msgs: &msgs}))
+	args := []string{"run", "users", "-c", fmt.Sprint(p.Conc), "-d", "300ms", "sc"}
+	t0 := time.Now()
+	err := inst.Add("sc", scenario).ExecuteWithArgs(args)
+	o.Events += started.Load() + 1
+	o.AddObs("cli_runs", 1)
+	desc := fmt.Sprintf("%+v args=%v", p, args)
+	mu.Lock()
+	defer mu.Unlock()
+	said := ""
+	for _, m := range msgs {
+		if strings.Contains(m, "Load Test Passed") || strings.Contains(m, "Load Test Failed") {
+			said = m
+		}
+	}
+	if said == "" || started.Load() == 0 {
+		o.Inconc("no final summary among %d log records / %d iterations started (%s)", len(msgs), started.Load(), desc)
+		return
+	}
+	if failedLate.Load() == 0 || time.Since(t0) < 9*time.Second {
+		o.Inconc("the iterations did not outlive the completion timeout (%s)", desc)
+		return
+	}
+	if strings.Contains(said, "Load Test Failed") != (err != nil) {
+		o.Violate("cli-lateoutcome", "%d iterations outlived the completion timeout and failed during the teardown; the run's summary says %q, the command returned error %v (%s)", failedLate.Load(), said, err, desc)
+		return
+	}
+	o.AddObs("decided_by_tolerance", 1)
+	o.Sig("cli:lateoutcome:conc=%d:said=%s", p.Conc, said)
+}
+
 // c08TwoRuns: two command lines on one f1 instance; what the first one set (a tolerance) is not in force for the second.
 func c08TwoRuns(c *core.Case, o *core.Outcome, p c08CLIParams) {
 	var n atomic.Int64
@@ -591,6 +779,10 @@ func c08CLI(c *core.Case, o *core.Outcome) {
 	c.Params(&p)
 	if p.Mode == "tworuns" {
 		c08TwoRuns(c, o, p)
+		return
+	}
+	if p.Mode == "lateoutcome" {
+		c08LateOutcome(c, o, p)
 		return
 	}
 	var started, failedPlanned, passed atomic.Int64
